@@ -11,7 +11,8 @@
 EXTENDS Timeline, TLC, Json
 
 CONSTANTS MaxKf, NE, EasePool, TimingPool, Seed,
-          NRand      \* 0: enumerate every keyframe; n > 0: n pseudo-random behaviours
+          NRand,     \* 0: enumerate every keyframe; n > 0: n pseudo-random behaviours
+          PosPool    \* sequence of admissible keyframe positions (numerators over PD)
 
 VARIABLES kfs, rng
 
@@ -32,6 +33,9 @@ TimingsA == <<
 EasesA == <<1, 2, 3, 11, 14, 19, 37>>      \* Lin, Sq, OutSq and some built-ins (ids = harness table)
 
 Vals(i, p) == 8 * i + 3 * p
+AllPos == [i \in 1..(PD + 1) |-> i - 1]
+\* positions 0.5 and the next f32 above it, 0.25 and the one below, ... : distinct but closer than f32::EPSILON
+NearPos == <<0, 8388608, 8388609, 4194304, 4194303, 16777216, 16777215, 12582912>>
 
 Kf(n, pos, dc, ei) == [pos |-> pos,
                        d |-> [p \in Props |-> IF dc[p] = 1 THEN <<Vals(n, p)>> ELSE <<>>],
@@ -40,12 +44,12 @@ LCG(r) == ((r * 1103) + 12345) % 65521
 AddKeyframe ==
   /\ Len(kfs) < MaxKf
   /\ IF rng = 0
-     THEN /\ \E pos \in 0..PD, dc \in [Props -> {0, 1}], ei \in 0..NE :
+     THEN /\ \E pi \in 1..Len(PosPool), dc \in [Props -> {0, 1}], ei \in 0..NE : LET pos == PosPool[pi] IN
                kfs' = Append(kfs, Kf(Len(kfs) + 1, pos, dc, ei))
           /\ rng' = 0
      ELSE \* a pseudo-random keyframe drawn from the generator state
           LET r1 == LCG(rng)  r2 == LCG(r1)  r3 == LCG(r2) IN
-          /\ kfs' = Append(kfs, Kf(Len(kfs) + 1, r1 % (PD + 1),
+          /\ kfs' = Append(kfs, Kf(Len(kfs) + 1, PosPool[(r1 % Len(PosPool)) + 1],
                                    [p \in Props |-> IF ((r2 \div (2 * p + 1)) % 3) = 0 THEN 0 ELSE 1],
                                    IF (r3 % 3) = 0 THEN (r3 \div 3) % (NE + 1) ELSE 0))
           /\ rng' = r3
